@@ -10,31 +10,31 @@ checks = {
  "C03": ("exploration", "entropy seam: the same case under K entropy seeds (all HashMap orders, RandomState) on fresh threads, twice under one seed, in the dev-profile build; traces, canonical saves and compiler output must be identical",
          "sampled programs/histories; story seed fixed through the guarded hook; notification order across different variables excluded", "5 C03",
          "getrandom interposition (simulated entropy), K-seed replay comparison, cross-build digest comparison"),
- "C04": ("exploration", "story faults injected by a fault-prone generator and source mutators under seeded host histories (incl. crash-restore, jumps into functions, wrong-arity evaluations); oracle: no panic/abort, zero-division reported, 32-bit wrapping model, reset-after-error in lockstep with fresh, identical logs in the dev (overflow-checked) build",
+ "C04": ("exploration", "story faults injected by a fault-prone generator and source mutators under seeded host histories (incl. crash-restore, jumps into functions, wrong-arity evaluations, externals unbound and rebound in mid-story); oracle: no panic/abort, zero-division reported, 32-bit wrapping model, reset-after-error in lockstep with fresh, identical logs in the dev (overflow-checked) build",
          "sampled programs/histories; fuel exhaustion discards runaway stories", "5 C04",
          "seeded host-call scheduler + story-fault injection, crash oracle (catch_unwind / worker death), dev-profile sub-build"),
- "C08": ("fault_enumeration", "virtual clock (clock_gettime seam): EVERY single pause position of every continue, the pause-after-every-read schedule and seeded multi-pause plans; guarded calls issued while paused must be refused; sliced run in lockstep with plain cont()",
+ "C08": ("fault_enumeration", "virtual clock (clock_gettime seam): EVERY single pause position of every continue, the pause-after-every-read schedule and seeded multi-pause plans; guarded calls issued while paused (in argument variants) must be refused; sliced run in lockstep with plain cont(); a case that never finishes is stuck-async",
          "positions sub-sampled above 600 per history; handler call timing excluded (not in the property)", "5 C08",
          "clock interposition, pause-position enumeration, lockstep twin oracle"),
  "C09": ("fault_enumeration", "misbehaving host: every kind of invalid call injected at EVERY distinct boundary of seeded histories, one at a time; must return Err (listed kinds) / not panic and leave the run in lockstep with the uninjected history incl. peer events",
          "sampled programs/histories; load_state excluded (C15)", "5 C09",
          "rejected-call fault enumeration over seeded host histories, lockstep twin oracle"),
- "C10": ("exploration", "K flow clients with own scripts and a scheduler: ALL interleavings of two flows with <=4 ops each (<=6 thorough), seeded ones for three flows; crash-restore, switch-away-and-back, switch-to-default, flow removal injected; each flow's projection must equal its alone transcript",
+ "C10": ("exploration", "K flow clients (named flows, in half of the cases also the default flow) with own scripts and a scheduler: ALL interleavings of two flows with <=4 ops each (<=6 thorough), seeded ones for three flows; crash-restore, switch-away-and-back, switch-to-default, flow removal injected; each flow's projection must equal its alone transcript",
          "flows are disjoint by construction; error-raising scripts discarded", "5 C10",
          "schedule enumeration (exhaustive small bound) + fault injection, per-flow refinement against the alone run"),
- "C11": ("exploration", "observer peers added/removed at arbitrary points, host assignments, resets, loads, crash-restores; every continue bracketed by polls; history oracle: changed => exactly one notification with the final value, unchanged => at most one, none for unregistered pairs, after the last external call",
+ "C11": ("exploration", "observer peers added/removed at arbitrary points, host assignments, resets, loads, crash-restores, lines finished in time-limited slices; every continue bracketed by polls; history oracle: changed => exactly one notification with the final value, unchanged => at most one, none for unregistered pairs, after the last external call",
          "sampled programs/histories; notifications inside reset/load themselves unconstrained", "5 C11",
          "peer simulation + history check against polled committed state"),
- "C12": ("exploration", "external-function peers under four binding configurations; call sites carry unique numbers and expected values; history oracle on call multiplicity, ordering relative to delivered lines, refusal in string positions, value placement",
+ "C12": ("exploration", "external-function peers under five binding configurations (unbound with fallbacks, safe, not safe, unbound without fallbacks, bound then unbound in mid-history with and without Ink fallbacks); call sites carry unique numbers and expected values; history oracle on call multiplicity, ordering relative to delivered lines, refusal in string positions, value placement, completeness of the validation error",
          "sites run at most once per play-through by construction; peers are pure", "5 C12",
          "peer simulation with global event sequence numbers, by-construction history oracle"),
- "C13": ("exploration", "warning and error sites with handler / no-handler twins over histories with resets; delivery history: no duplicates between resets, right type, twin agreement, Err exactly on errors, nothing outlives a reset",
+ "C13": ("exploration", "warning and error sites (also in statements that print nothing) with handler / no-handler twins over histories with resets, sliced continues and redirections; delivery history: no duplicates between resets, right type, twin agreement, Err exactly on errors, nothing outlives a reset, nothing is delivered while redirected plain text plays",
          "sites run at most once between resets by construction", "5 C13",
          "peer simulation (error handler), delivery-history oracle with a no-handler twin"),
  "C15": ("fault_enumeration", "disk damage to stories and saves: truncation at every byte (thorough, sliced), bit flips, byte loss/duplication, JSON node delete/retype/duplicate/swap, numeric extremes, nesting bombs, foreign saves; both loaders (stream-json-parser sub-build); no panic/abort/hang on an 8 MiB stack; reset after failed load in lockstep with fresh",
          "quick tier samples damages; a damaged document that loads is not played", "5 C15",
          "storage fault injection (torn/rotted/foreign documents), crash oracle incl. worker death and watchdog"),
- "C16": ("fault_enumeration", "host evaluation of every pure function injected (twice) at EVERY distinct boundary of seeded histories; lockstep with the uninjected history except the function's own visit counts; repeatability and text checks",
+ "C16": ("fault_enumeration", "host evaluation of every pure function injected (twice) at EVERY distinct boundary of seeded histories; lockstep with the uninjected history except the function's own visit counts; repeatability and text checks; the returned value equals what the story itself computes for the same call in a copy of the state",
          "functions pure by construction of the generator", "5 C16",
          "host-call injection enumeration, lockstep twin oracle"),
  "C17": ("exploration", "reset_state and jump-with-reset injected at EVERY prefix of seeded histories (flows, loads, errors, observers); lockstep with a freshly constructed instance incl. peers still attached",
@@ -43,7 +43,7 @@ checks = {
  "C18": ("exploration", "allocator accounting: N identical create-play-drop cycles, play-reset cycles and load-same-save cycles; live bytes after cycle N must equal live bytes after cycle N/2",
          "per-thread accounting (Story is !Send); first cycles excluded as warm-up", "5 C18",
          "counting global allocator (simulated memory accounting), conservation oracle"),
- "C20": ("exploration", "simulated client of the real rinklecate child process: hostile text, scripted stdin with end-of-input at seeded points, fragments, plain/JSON mode, compile faults; strict JSON stream parsing; transcript equality with the in-process library reference; compile output bytes and error reporting",
+ "C20": ("exploration", "simulated client of the real rinklecate child process: hostile text, scripted stdin with end-of-input at seeded points, fragments, CRLF and cut-off last lines, plain/JSON mode, -k, compile faults, file layouts (blank lines, byte-order mark); strict JSON stream parsing; transcript equality with the in-process library reference; compile output bytes and error reporting",
          "real process scheduling and pipes (not simulated); one case in eight run twice and diffed", "5 C20",
          "process-level simulation of the client side, library as executable reference model"),
 }
@@ -68,7 +68,7 @@ m = {
  },
  "engines": [{"name": "inksim", "path": "/verif/sim", "serves_properties": sorted(checks), "kind_free_text": "deterministic simulator: seeded host-call scheduler and fault injector around the real runtime, compiler and CLI; entropy (getrandom), clock (clock_gettime) and allocator seams by link-time interposition in the harness binary; fuel, story-seed and probe hooks behind a cargo feature"}],
  "checks": [],
- "notes": "All checks honour VERIF_SEED (default 1) and VERIF_TIER. Exit 0 = held, 1 = VIOLATION line(s) with a replay file, 2 = harness error. Known findings: /verif/known_findings.jsonl (all entries currently 'fixed': every genuine defect found was repaired by a 'fix:' commit in /repo).",
+ "notes": "All checks honour VERIF_SEED (default 1) and VERIF_TIER. Exit 0 = held, 1 = VIOLATION line(s) with a replay file, 2 = harness error. Every batch also re-executes the recorded cases in /verif/regress/<ID>/ (minimised schedules of repaired defects and of deliberately broken trees). Known findings: /verif/known_findings.jsonl (all entries currently 'fixed': every genuine defect found was repaired by a 'fix:' commit in /repo).",
  "not_applicable": [{"property_id": k, "reason": v} for k, v in sorted(na.items())],
 }
 for pid in sorted(checks):
